@@ -461,3 +461,43 @@ class CPDelete(CPBase):
 
     def exc_cb(self, c):
         return [("unchanged", self.cache_same(c)), ("why", z3.Not(is_none(fld(c.pre, c.self, "_fdel"))))]
+
+
+# ------------------------------------------------------------------------------------------------
+# where the protocol keeps its state: the slot name is fixed by __set_name__ (both descriptor kinds)
+# ------------------------------------------------------------------------------------------------
+class SetNameBase(Contract):
+    """__set_name__(owner, name): the descriptor records exactly the class it sits on and the attribute
+    name it sits under - the name every later read / assignment / deletion uses as the instance slot
+    (spec_property) - and touches nothing else of itself, so every option survives class creation"""
+    qual = SP + ":_spec_property_base.__set_name__"
+
+    def setup(self, c):
+        st, s = c.pre, c.self
+        st.assume(is_ref(s), a_of(s) >= 1000, a_of(s) < st.alloc)
+        st.assume(is_str(c.eng.to_val(st, c.name)))
+
+    def modifies(self, c):
+        return [a_of(c.self)]
+
+    def post(self, c):
+        st, s = c.pre, c.self
+        x = z3.Int("s!setname")
+        d0, d1 = st.get("idict", a_of(s)), c.post.get("idict", a_of(s))
+        return [("attr_name", fld(c.post, s, "attr_name") == c.eng.to_val(st, c.name)),
+                ("owner", fld(c.post, s, "owner") == c.eng.to_val(st, c.owner)),
+                ("options-kept-named", z3.And([fld(c.post, s, n) == fld(st, s, n) for n in self.named])),
+                ("options-kept", z3.ForAll([x], z3.Implies(z3.And(x != s_of(STR.val("attr_name")), x != s_of(STR.val("owner"))),
+                                                           z3.Select(d1, x) == z3.Select(d0, x))))]
+
+
+@register
+class SPSetName(SetNameBase):
+    recv = SPC
+    named = ("fget", "fset", "fdel", "overridable", "warn_on_override", "cache", "allow_attribute_error", "attrs", "__doc__")
+
+
+@register
+class CPSetName(SetNameBase):
+    recv = CPC
+    named = ("_fget", "_fset", "_fdel", "overridable", "warn_on_override", "cache", "allow_attribute_error", "attrs", "_cache", "__doc__")
